@@ -62,6 +62,7 @@ type Case struct {
 	RevA   bool // reversed winding
 	RevB   bool
 	DX, DY int64 // translation of B in 1/1000 units
+	Affine int   // 0: none; k>0: both operands are mapped by the k-th affine map (non-representable coefficients)
 	Tier   string
 }
 
@@ -82,6 +83,43 @@ func region(s shp, rev bool, dx, dy int64) exact.Region {
 		}
 	}
 	return r
+}
+
+var affines = [][6]float64{
+	{0.8660254037844387, -0.5, 0.5, 0.8660254037844387, 0.1, -0.3},                          // rotation by 30 degrees
+	{1.7, 0.3333333333333333, -0.45, 0.9, 1234.5678, -77.7},                                 // shear + scale
+	{-0.7071067811865476, 0.7071067811865476, 0.7071067811865476, 0.7071067811865476, 0, 0}, // reflection + rotation (negative determinant)
+}
+
+func affPt(k int, x, y float64) (float64, float64) {
+	if k == 0 {
+		return x, y
+	}
+	a := affines[k-1]
+	return a[0]*x + a[1]*y + a[4], a[2]*x + a[3]*y + a[5]
+}
+
+func affDet(k int) float64 {
+	if k == 0 {
+		return 1
+	}
+	a := affines[k-1]
+	return math.Abs(a[0]*a[3] - a[1]*a[2])
+}
+
+func toGeomA(s shp, rev bool, dx, dy int64, k int) geom.MultiPolygon {
+	mp := toGeom(s, rev, dx, dy)
+	if k == 0 {
+		return mp
+	}
+	for _, pg := range mp {
+		for _, ring := range pg {
+			for i := range ring {
+				ring[i].X, ring[i].Y = affPt(k, ring[i].X, ring[i].Y)
+			}
+		}
+	}
+	return mp
 }
 
 func toGeom(s shp, rev bool, dx, dy int64) geom.MultiPolygon {
@@ -197,11 +235,14 @@ func runCase(c Case, cat []shp) {
 	fa, fb := exact.ToF(ra, scale), exact.ToF(rb, scale)
 	and, or, diff, xor := exact.Areas(fa, fb)
 	want := []float64{and, or, diff, xor}
+	for i := range want {
+		want[i] *= affDet(c.Affine)
+	}
 	areaA, areaB := exact.Area(fa), exact.Area(fb)
 	// configuration class
 	class := "crossing"
 	bbDisjoint := func() bool {
-		ba, bb := toGeom(sa, false, 0, 0).Bounds(), toGeom(sb, false, c.DX, c.DY).Bounds()
+		ba, bb := toGeomA(sa, false, 0, 0, c.Affine).Bounds(), toGeomA(sb, false, c.DX, c.DY, c.Affine).Bounds()
 		return ba.Max.X < bb.Min.X || bb.Max.X < ba.Min.X || ba.Max.Y < bb.Min.Y || bb.Max.Y < ba.Min.Y
 	}()
 	switch {
@@ -227,10 +268,17 @@ func runCase(c Case, cat []shp) {
 		}
 		ia, _ := exact.Classify(ra, p)
 		ib, _ := exact.Classify(rb, p)
-		pts = append(pts, tp{exact.FPt{X: float64(p.X) / scale, Y: float64(p.Y) / scale}, ia, ib})
+		qx, qy := affPt(c.Affine, float64(p.X)/scale, float64(p.Y)/scale)
+		pts = append(pts, tp{exact.FPt{X: qx, Y: qy}, ia, ib})
 	}
-	ga, gb := toGeom(sa, c.RevA, 0, 0), toGeom(sb, c.RevB, c.DX, c.DY)
+	ga, gb := toGeomA(sa, c.RevA, 0, 0, c.Affine), toGeomA(sb, c.RevB, c.DX, c.DY, c.Affine)
 	ca, cb := casts(sa, ga), casts(sb, gb)
+	if c.Affine > 0 {
+		// a mapped box is no longer a *Bounds
+		delete(ca, "Bounds")
+		delete(cb, "Bounds")
+	}
+	_ = affDet
 	for ta, a := range ca {
 		for tb, b := range cb {
 			for op := 0; op < 4; op++ {
@@ -318,7 +366,7 @@ func main() {
 		return
 	}
 	rep = report.New("C01", tier, "model_checking")
-	rep.Rule = "E1: operand catalogue (9 (36) axis-aligned boxes, 2 triangles, L, C, pentagon, box with 1 and 2 holes, two disjoint boxes, box + box-with-hole, island inside a hole) in both windings for A and B, B translated by every vector of a 4x4 (8x8) odd-integer grid + (0.37,0.41), every receiver/argument cast {Polygon, MultiPolygon, *Bounds} x {Intersection, Union, Difference, XOr}; pairs not in general position (exact integer test) are skipped and counted. Oracle: even-odd membership of ~2400 lattice points with an exactly verified 0.05 margin must equal the boolean combination; region area of the result (slab decomposition) must equal the slab-decomposition area of the true region (rel 1e-9); rings closed for Polygon/MultiPolygon receivers; empty result only if the true area is 0. Non-trivial = operand pairs that cross or nest."
+	rep.Rule = "E1: operand catalogue (9 (36) axis-aligned boxes, 2 triangles, L, C, pentagon, box with 1 and 2 holes, two disjoint boxes, box + box-with-hole, island inside a hole) in both windings for A and B, B translated by every vector of a 4x4 (8x8) odd-integer grid + (0.37,0.41), every receiver/argument cast {Polygon, MultiPolygon, *Bounds} x {Intersection, Union, Difference, XOr}; the catalogue pairs again under 3 affine maps with non-representable coefficients (rotation by 30 deg, shear+scale, reflection; areas scale by |det|, references on the integer pre-images); pairs not in general position (exact integer test) are skipped and counted. Oracle: even-odd membership of ~2400 lattice points with an exactly verified 0.05 margin must equal the boolean combination; region area of the result (slab decomposition) must equal the slab-decomposition area of the true region (rel 1e-9); rings closed for Polygon/MultiPolygon receivers; empty result only if the true area is 0. Non-trivial = operand pairs that cross or nest."
 	cat := catalogue(tier)
 	offs := []int64{-7, -3, 1, 5}
 	if tier == "thorough" {
@@ -334,8 +382,28 @@ func main() {
 					}
 					for _, dx := range offs {
 						for _, dy := range offs {
-							cases = append(cases, Case{a, b, ra, rb, dx*scale + 370, dy*scale + 410, tier})
+							cases = append(cases, Case{a, b, ra, rb, dx*scale + 370, dy*scale + 410, 0, tier})
 						}
+					}
+				}
+			}
+		}
+	}
+	// the same operands under affine maps with non-representable coefficients
+	// (rotation, shear, reflection): edges are no longer axis-aligned, areas scale
+	// by |det|, membership is invariant; references are computed on the integer
+	// pre-images
+	for a := range cat {
+		for b := range cat {
+			if tier == "quick" && (cat[a].IsBox && a%4 != 0 || cat[b].IsBox && b%4 != 1) {
+				continue
+			}
+			for k := 1; k <= len(affines); k++ {
+				for oi, dx := range offs {
+					dy := offs[(oi+k)%len(offs)]
+					cases = append(cases, Case{a, b, false, (a+b)%2 == 1, dx*scale + 370, dy*scale + 410, k, tier})
+					if tier == "thorough" {
+						cases = append(cases, Case{a, b, true, (a+b)%2 == 0, dy*scale + 370, dx*scale + 410, k, tier})
 					}
 				}
 			}
